@@ -47,6 +47,9 @@ class Oracle:
             npos = len(vals) - len(kw)
             self.fns.add(e['f'])
             kwt = tuple(sorted(zip(kw, vals[npos:])))
+            for name, v in self.case.get('const_fns', []):
+                if name == e['f']:
+                    return json_to_py(v)
             if e['f'] in self.case.get('impure', []):
                 return Imp(e['f'], n, tuple(vals[:npos]), kwt)
             return App(e['f'], tuple(vals[:npos]), kwt)
@@ -131,4 +134,32 @@ def check_call(case, st, real, world_json):
         if cached and (silent or case.get('impure')):
             return None  # a cache hit may legitimately return the value of an earlier call (Silent / impure=True)
         return f'returned {canon(r["ok"])[:300]} but composing the user functions gives {want[:300]}'
+    return None
+
+
+def check_calls_c03(case, st, real):
+    """C03 on one call of a graph whose function nodes all carry distinct functions:
+    every user function at most once; only needed functions; without caches and faults exactly the needed ones."""
+    from .gen_vm import reachable
+    if st['t'] != 'call' or not real.get('valid', True):
+        return None
+    names = [c[0] for c in real['log']]
+    dup = sorted({n for n in names if names.count(n) > 1})
+    if dup:
+        return f'user functions executed more than once within one call: {dup}'
+    o = Oracle(case, st['env'])
+    try:
+        o.value(st['out'])
+        ok = True
+    except OErr:
+        ok = False
+    extra = sorted(set(names) - o.fns)
+    if extra and ok:
+        return f'functions executed that the requested field does not need for this input: {extra}'
+    reach = reachable(case, st['out'])
+    _, cached = has_silent_or_cache(case, reach)
+    if ok and not cached and not st.get('fail_at') and 'ok' in real['r']:
+        missing = sorted(o.fns - set(names))
+        if missing:
+            return f'needed functions were not executed: {missing}'
     return None
